@@ -52,6 +52,9 @@ TECMP::CanPayload::CanPayload()
 TECMP::CanPayload::CanPayload(const uint8_t* data, const size_t size)
     : Payload(TECMP::PayloadType::can, data, size)
 {
+    // The header and the announced number of data bytes have to be inside the payload
+    if (size < sizeof(Header) || getDlc() > size - sizeof(Header))
+        type = TECMP::PayloadType::invalid;
 }
 
 const uint8_t* TECMP::CanPayload::getData() const
@@ -80,6 +83,7 @@ uint32_t TECMP::CanPayload::getCrc() const
     uint32_t result = 0;
     auto crcOffset = sizeof(Header) + getHeader()->getDlc();
     auto crcPtr = payloadData.data() + crcOffset;
-    memcpy((void*) &result, crcPtr, 3);
+    const size_t crcSize = payloadData.size() - crcOffset < 3 ? payloadData.size() - crcOffset : 3;
+    memcpy((void*) &result, crcPtr, crcSize);
     return result;
 }
